@@ -183,3 +183,6 @@
 
 ; ----- cofactor clearing on the Edwards curve: the point has no small-order component -----
 (declare-fun torsionfree (Iface Int Int) Bool)
+
+; ----- outcome of the Paillier key-correctness proof check (paillier.Proof.Verify): proof entries, their values, modulus, prover key, public key -----
+(declare-fun pailverify ((Array Int Int) (Array Int Int) Int Int Int Int) Bool)
